@@ -134,6 +134,21 @@ func vAssertKF2(b bool, id string, kf1 string, r1 bool, kf2 string, r2 bool) {
 	}
 }
 
+func vAssertKF3(b bool, id string, kf1 string, r1 bool, kf2 string, r2 bool, kf3 string, r3 bool) {
+	if !b {
+		switch {
+		case r1 && vKFOpen(kf1):
+			vFailures = append(vFailures, id+"@"+kf1)
+		case r2 && vKFOpen(kf2):
+			vFailures = append(vFailures, id+"@"+kf2)
+		case r3 && vKFOpen(kf3):
+			vFailures = append(vFailures, id+"@"+kf3)
+		default:
+			vFailures = append(vFailures, id)
+		}
+	}
+}
+
 func vKFOpen(kf string) bool {
 	for _, k := range vRF.KFOpen {
 		if k == kf {
